@@ -153,6 +153,11 @@ def make_uod(run: "Run", totalizer=True):
         cmd.context.tags["Out1"].set_value(9.0, run.now)
         cmd.set_complete()
 
+    def fail_cmd(cmd: UodCommand, **kw):
+        # argument-less command that fails when executed (an engine error that can happen while the run is paused)
+        log(cmd, "exec")
+        raise ValueError("Fail command failed")
+
     def openv(cmd: UodCommand, **kw):
         log(cmd, "exec")
         cmd.context.tags["Out2"].set_value("Open", run.now)
@@ -201,6 +206,7 @@ def make_uod(run: "Run", totalizer=True):
          .with_command(name="Hang", exec_fn=hang, init_fn=init, finalize_fn=fin, arg_parse_fn=None)
          .with_command(name="On1", exec_fn=on1, init_fn=init, finalize_fn=fin, arg_parse_fn=None)
          .with_command(name="OpenV", exec_fn=openv, init_fn=init, finalize_fn=fin, arg_parse_fn=None)
+         .with_command(name="Fail", exec_fn=fail_cmd, init_fn=init, finalize_fn=fin, arg_parse_fn=None)
          .with_command(name="OvA", exec_fn=ov, init_fn=init, finalize_fn=fin, arg_parse_fn=None)
          .with_command(name="OvB", exec_fn=ov, init_fn=init, finalize_fn=fin, arg_parse_fn=None)
          .with_command(name="OvC", exec_fn=ov, init_fn=init, finalize_fn=fin, arg_parse_fn=None)
